@@ -54,7 +54,7 @@ def tmatch(pat, t, sigma):
 class DbGen:
     def __init__(self, rng, opts=None):
         self.rng = rng
-        self.o = dict(inner_var_block=False, normal_proofs=0.08, top_essential=0.12, junk=0.15,
+        self.o = dict(inner_var_block=False, normal_proofs=0.08, top_essential=0.2, early_essential=0.15, junk=0.15,
                       wff=0.35, nested_axiom_blocks=0.25, sugar=0.2)
         if opts:
             self.o.update(opts)
@@ -123,12 +123,25 @@ class DbGen:
         forder = [v for v in allv if v != inner_v]
         if r.random() < 0.5:
             r.shuffle(forder)
+        self.usable = [v for v in pv if v != inner_v]
+        # hypothesis-order shapes: a top-level $e that PRECEDES a $f the later lemmas use
+        top_e = r.random() < o['top_essential']
+        late_v = None
+        if top_e and len(self.usable) >= 3:
+            late_v = self.usable.pop()            # its $f comes after the top-level $e `top-e`
+            forder.remove(late_v)
+        self.global_e_const = set()
+        early_at = r.randrange(len(forder)) if r.random() < o['early_essential'] else None
         self.flabel = {}
-        for v in forder:
+        for k, v in enumerate(forder):
+            if k == early_at:
+                # variable-free, so it can sit anywhere among the $f statements and is proved by its own label
+                self.info['features'].add('early-top-level-$e')
+                db.append(('E', 'early-e', (Ap(T), Ap('unused-c'))))
+                self.global_e_const.add('early-e')
             lab = f'{v}-is-{"pattern" if v in pv else "var"}'
             self.flabel[v] = lab
             db.append(('F', lab, P if v in pv else extra_ty, v))
-        self.usable = [v for v in pv if v != inner_v]
         if inner_v is not None:
             self.info['features'].add('inner-block-variable')
             lab = f'{inner_v}-is-pattern'
@@ -175,9 +188,14 @@ class DbGen:
         self.asserts = []          # labels of |- assertions usable in derivations
         for _ in range(r.randint(2, 5)):
             self.add_axiom()
-        if r.random() < o['top_essential']:
+        if top_e:
             self.info['features'].add('top-level-$e')
             db.append(('E', 'top-e', (Ap(T), self.rterm(self.usable, 1))))
+            if late_v is not None:
+                self.info['features'].add('$f-after-top-level-$e')
+                self.flabel[late_v] = f'{late_v}-is-pattern'
+                db.append(('F', self.flabel[late_v], P, late_v))
+                self.usable.append(late_v)
         ntheorems = r.randint(2, 6)
         for i in range(ntheorems):
             self.add_theorem(i)
@@ -259,7 +277,7 @@ class DbGen:
             if kind == 'f':
                 kids.append(self.syn_proof(sigma.get(var, V(var)), sc))
             else:
-                kids.append(eproofs[hl])
+                kids.append(eproofs[hl] if hl in eproofs or hl not in self.global_e_const else (hl, []))
         return (lab, kids)
 
     def add_theorem(self, idx):
